@@ -496,6 +496,25 @@ class SegEval:
 
     def _per_dim(self, t, ix, count) -> Vec:
         """Vector over dimensions of a per-dimension expression t(ix)."""
+        # an element of a pointwise ring expression over bound vectors is that expression of their elements:
+        # (maxs - mins + 1)[i] == maxs[i] - mins[i] + 1, so `mins[i] + widths[i]` cancels to `maxs[i] + 1`
+        for _round in range(4):
+            m = {}
+            for x in subterms(t):
+                if x[0] == "elem" and len(x[2]) == 1 and x[2][0] == ix and x[1][0] == "poly":
+                    atoms = {a for mono, _c in x[1][1] for a, _p in mono}
+                    vec_atoms = {}
+                    for a in atoms:
+                        try:
+                            if isinstance(self.ev(a), Vec):
+                                vec_atoms[a] = ("elem", a, (ix,))
+                        except AnalysisError:
+                            pass
+                    if vec_atoms:
+                        m[x] = subst(x[1], vec_atoms)
+            if not m:
+                break
+            t = subst(t, m)
         elems = [x for x in subterms(t) if x[0] == "elem" and len(x[2]) == 1 and x[2][0] == ix]
         if not elems:
             if count is None:
